@@ -490,3 +490,84 @@ theorem modf_eq (f : Nat) (h : f < two64) : modf f = modfGo f := by
       rw [key]
 
 end GV.Proofs.FloatBits
+
+/-! ## Ldexp / Frexp -/
+namespace GV.Proofs.FloatBits
+open GV.FloatBits
+
+/-- wherever the model of the override's `Ldexp` decides (zero, NaN, ±Inf, or a normal operand with a normal result and
+    |exp| < 1024), upstream `ldexp` returns the same bit pattern -/
+theorem ldexp_agree (frac : Nat) (e : Int) (b : Nat) (h : ldexp frac e = some b) : ldexpGo frac e = some b := by
+  unfold ldexp at h
+  unfold ldexpGo
+  by_cases hr : -1024 < e ∧ e < 1024
+  · rw [if_pos hr] at h
+    by_cases hz : isZero frac = true
+    · rw [if_pos hz] at h ⊢; exact h
+    · rw [if_neg hz] at h ⊢
+      by_cases hn : isNaN frac = true
+      · rw [if_pos hn] at h ⊢; exact h
+      · rw [if_neg hn] at h ⊢
+        by_cases hi : isInf frac = true
+        · rw [if_pos hi] at h ⊢; exact h
+        · rw [if_neg hi] at h ⊢
+          by_cases hc : expo frac ≠ 0 ∧ 1 ≤ (expo frac : Int) + e ∧ (expo frac : Int) + e ≤ 2046
+          · rw [if_pos hc] at h
+            rw [if_neg hc.1]
+            have h1 : ¬ ((expo frac : Int) - 1023 + e < -1075) := by omega
+            have h2 : ¬ ((expo frac : Int) - 1023 + e > 1023) := by omega
+            have h3 : ¬ ((expo frac : Int) - 1023 + e < -1022) := by omega
+            simp only [h1, h2, h3, if_false]
+            have e1 : (expo frac : Int) - 1023 + e + 1023 = (expo frac : Int) + e := by omega
+            rw [e1]; exact h
+          · rw [if_neg hc] at h; exact absurd h (by simp)
+  · rw [if_neg hr] at h; exact absurd h (by simp)
+
+/-- the special-case table of `Ldexp` for |exp| < 1024: ±0 → ±0, ±Inf → ±Inf, NaN → NaN -/
+theorem ldexp_special (frac : Nat) (e : Int) (hr : -1024 < e ∧ e < 1024) :
+    (isZero frac = true → ldexp frac e = some frac) ∧
+    (isInf frac = true → ldexp frac e = some frac) ∧
+    (isNaN frac = true → ldexp frac e = some nanBits) := by
+  unfold ldexp
+  rw [if_pos hr]
+  refine ⟨fun h => by rw [if_pos h], fun h => ?_, fun h => ?_⟩
+  · have hz : isZero frac = false := by unfold isInf at h; unfold isZero; simp at h ⊢; omega
+    have hn : isNaN frac = false := by unfold isInf at h; unfold isNaN; simp at h ⊢; intro _; exact h.2
+    simp [hz, hn, h]
+  · have hz : isZero frac = false := by unfold isNaN at h; unfold isZero; simp at h ⊢; omega
+    simp [hz, h]
+
+/-- `Frexp` of a normal f: the fraction carries exponent field 1022 (|frac| in [1/2, 1)), same sign and mantissa -/
+theorem frexp_normal (f : Nat) (_hf : f < two64) (h1 : expo f ≠ 0) (h2 : expo f ≠ 2047) :
+    (frexp f).2 = (expo f : Int) - 1022 ∧ expo (frexp f).1 = 1022 ∧ sign (frexp f).1 = sign f ∧ mant (frexp f).1 = mant f := by
+  have hs : sign f ≤ 1 := by unfold sign; omega
+  have hm : mant f < two52 := by unfold mant two52; omega
+  have hz : isZero f = false := by unfold isZero; simp; omega
+  have hi : isInf f = false := by unfold isInf; simp; omega
+  have hn : isNaN f = false := by unfold isNaN; simp; omega
+  unfold frexp
+  simp only [hz, hi, hn, Bool.or_false, Bool.false_eq_true, if_false, h1, ne_eq, not_false_eq_true, if_true]
+  refine ⟨trivial, ?_, ?_, ?_⟩ <;> (unfold sign expo mant two63 two52 at *; omega)
+
+/-- decomposition then scaling is the identity: `Ldexp(Frexp(f)) = f` for every normal f below 2^1023
+    (for the top binade Frexp's exponent is 1024 and Ldexp takes the upstream path) -/
+theorem ldexp_frexp (f : Nat) (hf : f < two64) (h1 : expo f ≠ 0) (h2 : expo f < 2046) :
+    ldexp (frexp f).1 (frexp f).2 = some f := by
+  obtain ⟨he, hx, hsg, hmt⟩ := frexp_normal f hf h1 (by omega)
+  have hd := decode f hf
+  have hex : expo f ≤ 2045 := by omega
+  unfold ldexp
+  rw [he, hx, hsg, hmt]
+  have hr : -1024 < (expo f : Int) - 1022 ∧ (expo f : Int) - 1022 < 1024 := by omega
+  have hz : isZero (frexp f).1 = false := by unfold isZero; rw [hx]; simp
+  have hn : isNaN (frexp f).1 = false := by unfold isNaN; rw [hx]; simp
+  have hi : isInf (frexp f).1 = false := by unfold isInf; rw [hx]; simp
+  have hc : (1022 : Nat) ≠ 0 ∧ 1 ≤ ((1022 : Nat) : Int) + ((expo f : Int) - 1022) ∧ ((1022 : Nat) : Int) + ((expo f : Int) - 1022) ≤ 2046 := by
+    omega
+  rw [if_pos hr, hz, hn, hi]
+  simp only [Bool.false_eq_true, if_false]
+  rw [if_pos hc]
+  have e : (((1022 : Nat) : Int) + ((expo f : Int) - 1022)).toNat = expo f := by omega
+  rw [e, ← hd]
+
+end GV.Proofs.FloatBits
